@@ -28,14 +28,14 @@
 //@   replace? "address, contract)" => "address, contract))"
 //@   begin proof { lemma_contract_key_insert(old(storage).view(), *address, contract.ser()); lemma_splice_same(old(storage).view(), lp(ns_wasm())); }
 //@ end
-// the body is not verified (cw-storage-plus range_raw + count): the contract is ASSUMED for a function of the store alone.
-// The signature is pinned: with another parameter list the assumed contract would speak about a different function
-// (seed C11-m16 counted per code id and still "satisfied" it) -> lost anchor, the run is undecided instead of OK.
+// the real body (cw-storage-plus range_raw over the whole contracts map, then Iterator::count) is verified against the
+// DEFINED count of the records of the contracts window (seed C11-m16, which counted per code id, used to pass while this
+// was an assumed stub)
 //@ fn src/wasm.rs :: WasmKeeper :: instance_count
 //@   ret r
-//@   drop_body
-//@   replace "fn instance_count(&self, storage: &dyn Storage) -> usize" => "fn instance_count(&self, storage: &dyn Storage) -> usize"
 //@   ensures [C11.instance_count.fn,C19] r == spec_instance_count(storage.view())
+//@   replace "CONTRACTS\n            .range_raw(" => "let vx_it = CONTRACTS\n            .range_raw("
+//@   replace "            )\n            .count()" => "            );\n        let vx_n = vx_it.count();\n        proof { if has_range_len(window(window(storage.view(), lp(ns_wasm())), lp(ns_contracts())), vx_n as nat) { lemma_instance_count(storage.view(), vx_n as nat); } }\n        vx_n"
 //@ end
 
 //@ fn src/wasm.rs :: WasmKeeper :: code_data
@@ -136,6 +136,21 @@ pub proof fn lemma_contract_key_insert(s: St, a: Addr, v: Seq<u8>)
     ensures splice(s, lp(ns_wasm()), window(s, lp(ns_wasm())).insert(lp(ns_contracts()) + a.bytes(), v)) == s.insert(contract_key(a), v)
 {
     lemma_splice_insert(s, lp(ns_wasm()), lp(ns_contracts()) + a.bytes(), v);
+}
+// any ordered range of the contracts window has the length spec_instance_count chooses
+pub proof fn lemma_instance_count(s: St, n: nat)
+    requires has_range_len(window(window(s, lp(ns_wasm())), lp(ns_contracts())), n), n <= usize::MAX
+    ensures spec_instance_count(s) as nat == n
+{
+    reveal(spec_instance_count);
+    let w = window(window(s, lp(ns_wasm())), lp(ns_contracts()));
+    let (recs, o1) = choose|recs: Seq<RecV>, o: Order| #[trigger] is_range_of(recs, w, None, None, o) && recs.len() == n;
+    let n0 = n as usize;
+    assert(has_range_len(w, n0 as nat));
+    let c = spec_instance_count(s);
+    assert(has_range_len(w, c as nat));
+    let (r3, o3) = choose|r3: Seq<RecV>, o: Order| #[trigger] is_range_of(r3, w, None, None, o) && r3.len() == c as nat;
+    lemma_range_len_unique(recs, r3, w, o1, o3);
 }
 // max_id is an upper bound of the ids in use and is itself in use (or 0)
 pub proof fn lemma_max_id<V>(m: vstd::map::Map<u64, V>)
